@@ -14,7 +14,7 @@ FOCUS = {
     'C01': dict(roots=[(0, 1), (1, 1)], armed=['c01'], faults=['F-ORD', 'F-NOT', 'F-BULK'], hist=['sched'],
                 all_reps=True, derive=['slice', 'convert', 'nx:clear'], p_derive=[0.0, 0.05, 0.1]),
     'C02': dict(roots=[(0, 1), (1, 1), (0, 1), (1, 1), (0, 0), (1, 0)], armed=['c02'], faults=['F-ORD', 'F-BULK'],
-                hist=['c02-final'], derive=['slice', 'convert'], p_derive=[0.0, 0.1], p_node=[0.1, 0.2],
+                hist=['c02-final'], derive=['slice', 'convert', 'slice', 'convert', 'nx:clear'], p_derive=[0.0, 0.1], p_node=[0.1, 0.2],
                 steps_cap=16),
     'C03': dict(roots=[(0, 1), (1, 1), (0, 1), (1, 1), (0, 0), (1, 0)], armed=['c03'], faults=['F-ORD'], hist=[],
                 p_derive=[0.0, 0.1, 0.2], all_reps=True,
@@ -36,11 +36,11 @@ FOCUS = {
     'C18': dict(roots=[(0, 1), (1, 1)], armed=[], faults=['F-ORD'], hist=[],
                 derive=['parse', 'parse', 'parse', 'compact'], p_derive=[0.5, 0.7], level='fault_enumeration',
                 variants=True, steps_cap=12),
-    'C12': dict(roots=[(0, 1), (1, 1)], armed=[], faults=['F-ORD'], hist=[], small=True,
+    'C12': dict(roots=[(0, 1), (1, 1), (0, 1), (1, 1), (0, 1), (1, 1), (0, 0), (1, 0)], armed=[], faults=['F-ORD'], hist=[], small=True,
                 derive=['probe_paths'] * 6 + ['probe_all', 'probe_all', 'slice', 'nx:clear', 'convert', 'restart:snapshots', 'restart:json', 'freeze'], p_derive=[0.3, 0.5]),
-    'C13': dict(roots=[(0, 1), (1, 1)], armed=[], faults=['F-ORD'], hist=[], small=True,
+    'C13': dict(roots=[(0, 1), (1, 1), (0, 1), (1, 1), (0, 1), (1, 1), (0, 0), (1, 0)], armed=[], faults=['F-ORD'], hist=[], small=True,
                 derive=['probe_paths'] * 6 + ['probe_all', 'probe_all', 'slice', 'nx:clear', 'convert', 'restart:snapshots', 'restart:json', 'freeze'], p_derive=[0.3, 0.5]),
-    'C15': dict(roots=[(0, 1), (1, 1)], armed=[], faults=['F-ORD'], hist=[], small=True,
+    'C15': dict(roots=[(0, 1), (1, 1), (0, 1), (1, 1), (0, 1), (1, 1), (0, 0), (1, 0)], armed=[], faults=['F-ORD'], hist=[], small=True,
                 derive=['probe_dag'] * 8 + ['slice', 'nx:clear', 'convert', 'restart:snapshots', 'restart:json', 'freeze'], p_derive=[0.3, 0.5]),
     'C17': dict(roots=[(0, 1), (0, 1), (1, 1)], armed=[], faults=['F-ORD'], hist=[], selfloops=[0.0, 0.0, 0.05],
                 derive=['probe_stats'] * 8 + ['slice', 'restart:snapshots', 'restart:interactions', 'restart:json', 'convert', 'nx:clear', 'freeze'], p_derive=[0.3, 0.5]),
@@ -402,8 +402,12 @@ def gen_step(world, rng, cfg):
         ids = rep.m.instants()
         a = rng.randint(ids[0] - 1, ids[-1])
         return {'op': 'slice_acc', 'g': rep_i, 't_from': a, 't_to': a + rng.randint(0, 6), 'form': rng.choice(['method', 'func'])}
-    if derive and rng.random() < cfg.get('p_derive', 0) and (rep.m.removal or world.focus in ('C19', 'C08')) and (rep.m.keys() or rng.random() < 0.1):
+    if derive and rng.random() < cfg.get('p_derive', 0) and (rep.m.removal or world.focus in ('C19', 'C08', 'C12', 'C13', 'C15')) and (rep.m.keys() or rng.random() < 0.1):
         d = rng.choice(derive)
+        if not rep.m.removal and world.focus in ('C12', 'C13', 'C15') and not (d.startswith('probe_') or d in ('nx:clear', 'freeze')):
+            # accumulative graphs are in the domain of the path properties, but slices, conversions and file
+            # copies of them are nobody's subject (C06/C16/C09.. quantify over removal-enabled graphs)
+            d = spec['derive'][0]
         if d == 'alias':
             op = gen.gen_mutate_attr(rng, rep, cfg)
         elif d == 'compact':
